@@ -29,6 +29,9 @@ var c14Programs = []string{
 	`{ n++ } END { print "end", n }`,
 	`BEGIN { exit }`,
 	`{ c = c + 1; print c, $ }`,
+	// the program text is taken byte for byte: line ends inside literals, lone carriage returns, no final newline
+	"BEGIN { s = \"a\r\nb\r\n\"; print s.length(), s.split(\"\r\n\").length(), 'x\ry'.length() }\r\n{ print }\r\n",
+	"# header\r\n{ print \"p\n\rq\".length(), \"tab\there\", \"é\" ~ /é\r?/ } # no final newline",
 }
 
 var c14ProgramsMore = []string{
@@ -295,7 +298,7 @@ func c14RootSelector(c *fw.Ctx, prog, input, sel string) *fw.Violation {
 func init() {
 	fw.Register(&fw.Prop{
 		ID: "C14",
-		Rule: "the full product {inline, -f} x {stdin, one file, two files, a missing file, a directory as file, the same file twice} x {no selector, one, two, a failing one} x {no -o, -o -, -o FILE, -o into a missing directory} x 12 programs (silent, printing, mutating $, BEGINFILE replacing $, exit, syntax error, runtime error before / after output, $file, END, exit in BEGIN, state across values) x 6 inputs (array, object, scalar, two values, empty, malformed), on the real binary; " +
+		Rule: "the full product {inline, -f} x {stdin, one file, two files, a missing file, a directory as file, the same file twice} x {no selector, one, two, a failing one} x {no -o, -o -, -o FILE, -o into a missing directory} x 14 programs (silent, printing, mutating $, BEGINFILE replacing $, exit, syntax error, runtime error before / after output, $file, END, exit in BEGIN, state across values, CR LF / lone CR / LF CR inside literals and between statements) x 6 inputs (array, object, scalar, two values, empty, malformed), on the real binary; " +
 			"oracle: the in-process library run of the same program, selectors and inputs (stdout, outcome, JSON output) plus the wrapper laws (exit 0 iff success and nothing refused, diagnostic on stderr otherwise, no stack trace, -o FILE == bytes of -o -, a missing file refused before any output); " +
 			"and -r E == BEGINFILE { $ = E } for every program without BEGINFILE/ENDFILE x every input x 6 selectors; thorough doubles the three alphabets; a state is (source, -o mode, selector list, -f, library outcome); non-trivial = same",
 		Plan:  func(t fw.Tier) int { return 2 * c14NSource * c14NOut },
